@@ -343,7 +343,9 @@ def reparsable (d : Dicts) (a : Abs) : Bool :=
   a.h.any (fun p => p.1 = 8) && a.h.any (fun p => p.1 = 35) &&
   (flatSec a.h).all (fun p => p.1 ≠ 212) &&
   fl.all (fun p => p.1 > 0 && (match p.2 with | some v => !v.contains SOH | none => true)) &&
-  a.h.all (fun p => secOf d p.1 == .h) && a.t.all (fun p => secOf d p.1 == .t) && a.b.all (fun p => secOf d p.1 == .b) &&
+  a.h.all (fun p => secOf d p.1 == .h) && a.t.all (fun p => secOf d p.1 == .t) &&
+  -- body: the group members too must be body tags ("tags in the proper section")
+  (flatSec a.b).all (fun p => secOf d p.1 == .b) &&
   -- inside header / trailer groups the members are parsed as separate fields: keep to plain values there
   a.h.all (fun p => match p.2 with | .grp _ _ => false | _ => true) &&
   a.t.all (fun p => match p.2 with | .grp _ _ => false | _ => true)
@@ -355,6 +357,13 @@ def groupClaimable (a : Abs) (gt : Tag) (tmpl : List Item) (es : List (List GFld
   nodupTags (gt :: tt) && entriesOK tmpl es && tt.all (fun t => t > 0) &&
   (a.cook.b ++ a.cook.t ++ a.cook.h).all (fun p => p.1 = gt || !tt.contains p.1) &&
   tt.all (fun t => !Tag.isHeader t && !Tag.isTrailer t)
+
+/-- tags carried by members of the groups of `a` (a top-level field with such a tag is shadowed when the members are
+    parsed as separate fields: no claim about it) -/
+def memberTags (a : Abs) : List Tag :=
+  (a.h ++ a.b ++ a.t).flatMap (fun p => match p.2 with
+    | .grp tm es => allTmplTags tm ++ (flatEntries tm es).map (·.1)
+    | _ => [])
 
 def hasNested : List Item → Bool
   | [] => false
